@@ -26,6 +26,10 @@ def make_variant(spec, arg):
         if os.path.exists(meta):
             base = json.load(open(meta)).get("base_commit")
         p = subprocess.run(["patch", "-p1", "-s", "--dry-run", "-i", os.path.abspath(arg)], cwd=d, capture_output=True, text=True)
+        if p.returncode != 0 and os.environ.get("SVGDX_VARIANT_NO_FALLBACK"):
+            shutil.rmtree(d)
+            print("NOAPPLY")
+            sys.exit(3)
         if p.returncode != 0 and base:
             # the patch was written against an older commit of /repo: build the variant from that tree
             shutil.rmtree(os.path.join(d, "src"))
